@@ -425,6 +425,114 @@ def replay_layout(F: str, layout: dict, ns: bool, explicit: bool, mod: str, key_
     return replay
 
 
+def check_f_abspath(rep: Report) -> None:
+    """F: the key of load_graph's "source file found twice" detection.  The block of State.__init__
+    that computes self.abspath is cut out of the source (AST) and run on solver-chosen spellings of a
+    command-line path (components ".", "..", directory names); the module finder reports the same
+    file by its normalised absolute path, so the two must be equal strings."""
+    import ast
+    import inspect
+
+    import mypy.build as B
+
+    src = inspect.getsource(B.State.__init__)
+    tree = ast.parse("class _X:\n" + "\n".join("    " + l if l.strip() else l for l in __import__("textwrap").dedent(src).splitlines()))
+    block = None
+    for node in ast.walk(tree):
+        if isinstance(node, ast.If) and isinstance(node.test, ast.Name) and node.test.id == "path" and "abspath" in ast.unparse(node):
+            block = node
+            break
+    if block is None:
+        rep.error("F: the abspath block of State.__init__ was not found")
+        return
+    code = compile(ast.Module(body=[block], type_ignores=[]), "<State.__init__ abspath block>", "exec")
+    rep.kernel("mypy.build.State.__init__[abspath block]", symx.hashlib.sha256(ast.unparse(block).encode()).hexdigest()[:16])
+    CWD = "/w/proj/cwd"
+    COMPS = [".", "..", "pkg", "cwd", "proj"]
+    ctx = Ctx()
+    found: dict = {}
+    n = {"p": 0, "dotted": 0}
+
+    def canonical(parts: list) -> str:
+        st = [x for x in CWD.split("/") if x]
+        for x in parts:
+            if x == ".":
+                continue
+            if x == "..":
+                if st:
+                    st.pop()
+            else:
+                st.append(x)
+        return "/" + "/".join(st)
+
+    def body(c: Ctx) -> None:
+        k = c.choose("n_components", 4)
+        parts = [COMPS[c.choose(f"component{i}", len(COMPS))] for i in range(k)] + ["mod.py"]
+        path = "/".join(parts)
+
+        class Mgr:
+            cwd = CWD
+
+        class Self:
+            abspath = None
+
+        o = Self()
+        ns = dict(B.__dict__)
+        ns.update(self=o, path=path, manager=Mgr)
+        exec(code, ns)
+        n["p"] += 1
+        n["dotted"] += 1 if ("." in parts or ".." in parts) else 0
+        want = canonical(parts)
+        c.stats["assert_queries"] += 1
+        if o.abspath == want:
+            c.stats["discharged"] += 1
+        else:
+            c.stats["refuted"] += 1
+            kind = "'..'" if ".." in parts else ("'.'" if "." in parts else "plain")
+            found.setdefault(f"State.abspath is not the normalised absolute path for a relative path with {kind} components (key of the found-twice detection)", (path, o.abspath, want))
+
+    ctx.explore(body)
+    rep.add_ctx("F State.abspath is the canonical key of the found-twice detection", ctx, spellings=n["p"], with_dot_components=n["dotted"])
+    rep.twin("F: spellings with dot components reached", n["dotted"] > 0)
+    for key, (path, got, want) in found.items():
+        rep.sample({"check": "F", "class": key, "path": path, "abspath": got, "expected": want})
+
+        def replay(d: str, path: str = path) -> tuple[bool, str]:
+            # real mypy: a file reachable under two module names must stop with the found-twice error
+            # however the command-line path is spelled
+            root = os.path.join(d, "w", "proj", "cwd")
+            os.makedirs(os.path.join(root, "pkg"), exist_ok=True)
+            os.makedirs(os.path.join(d, "w", "proj", "pkg"), exist_ok=True)
+            parts = path.split("/")
+            # materialise: the target directory of the spelling gets __init__.py + mod.py + user.py (imports mod as top-level)
+            st = ["w", "proj", "cwd"]
+            for x in parts[:-1]:
+                if x == ".":
+                    continue
+                if x == "..":
+                    st.pop()
+                else:
+                    st.append(x)
+            tdir = os.path.join(d, *st)
+            os.makedirs(tdir, exist_ok=True)
+            open(os.path.join(tdir, "__init__.py"), "w").close()
+            with open(os.path.join(tdir, "mod.py"), "w") as f:
+                f.write("x: int = 1\n")
+            with open(os.path.join(tdir, "user.py"), "w") as f:
+                f.write("import mod\n")
+            env = dict(os.environ)
+            env.pop("PYTHONPATH", None)
+            env["MYPYPATH"] = tdir
+            rel_dir = "/".join(parts[:-1]) or "."
+            outs = []
+            for spelled in (path, os.path.join(tdir, "mod.py")):
+                p = subprocess.run([sys.executable, "-m", "mypy", "--no-incremental", "--no-error-summary", spelled, rel_dir + "/user.py"], cwd=root, env=env, capture_output=True, text=True, timeout=300)
+                outs.append((p.returncode, "found twice" in (p.stdout + p.stderr)))
+            return outs[0] != outs[1], f"mypy {path} ...: {outs[0]}; with the absolute spelling: {outs[1]} (status, found-twice reported)"
+
+        rep.candidate(key, f"path {path!r}: abspath {got!r}, expected {want!r}", {"path": path}, replay)
+
+
 def main(args: Any) -> int:
     rep = Report(PID, args.tier, "symbolic execution of the real SourceFinder and FindModuleCache against a symbolic file system (existence answers are z3 booleans under sanity constraints); the solver explores every layout the implementations distinguish; replay on a materialised directory tree")
     rep.bounds += [
@@ -436,7 +544,12 @@ def main(args: Any) -> int:
         "search roots = the base directory crawl_up derived (plus MYPYPATH=root under explicit package bases)",
     ]
     rep.outside += ["-p/-m forms and diagnostics equality of the three invocation forms (whole runs)", "typeshed / installed packages / PEP 561"]
-    run_layouts(rep, args.tier)
+    only = set(args.only.split(",")) if getattr(args, "only", None) else None
+    if only is None or "layouts" in only:
+        run_layouts(rep, args.tier)
+    if only is None or "F" in only:
+        check_f_abspath(rep)
+        rep.bounds.append("F: relative command-line paths of <= 3 components from {., .., pkg, cwd, proj} + mod.py below the working directory /w/proj/cwd")
     return rep.finish()
 
 
